@@ -165,6 +165,20 @@ def replay_ops(ops):
             w.obs(op["c"])
         elif o == "obs_rec":
             w.obs_rec(op["r"])
+        elif o == "enc_rdf":
+            w.enc_rdf(op["c"])
+        elif o == "dec_rdf":
+            # the op carries the parsed quads, not the text: write the (unique) document of the history again and read that
+            import logging
+            import warnings
+            src = next((c for c, obj in w.conts.items() if obj.is_document()), None)
+            logging.disable(logging.CRITICAL)
+            try:
+                with warnings.catch_warnings():
+                    warnings.simplefilter("ignore")
+                    h, _err = w.dec_rdf(text=w.conts[src].serialize(format="rdf"))
+            finally:
+                logging.disable(logging.NOTSET)
         else:
             raise ValueError("cannot replay op " + o)
     return w
